@@ -149,6 +149,8 @@ func (c *Conversation) receiveDecoded(message messageWithHeader) (plain MessageP
 		return
 	}
 
+	previousTheirInstanceTag := c.theirInstanceTag
+
 	var messageHeader, messageBody []byte
 	if messageHeader, messageBody, err = c.parseMessageHeader(message); err != nil {
 		if err == errReceivedMessageForOtherInstance {
@@ -160,10 +162,17 @@ func (c *Conversation) receiveDecoded(message messageWithHeader) (plain MessageP
 	msgType := messageHeader[2]
 	switch msgType {
 	case msgTypeData:
-		return c.receiveDataMessage(messageHeader, messageBody)
+		plain, toSend, err = c.receiveDataMessage(messageHeader, messageBody)
 	default:
-		return c.receiveAKEMessage(msgType, messageBody)
+		plain, toSend, err = c.receiveAKEMessage(msgType, messageBody)
 	}
+
+	if err != nil && previousTheirInstanceTag == 0 {
+		// the peer's instance tag is learnt only from a message that turns out to be well-formed
+		c.theirInstanceTag = 0
+	}
+
+	return
 }
 
 func (c *Conversation) receiveAKEMessage(msgType byte, messageBody []byte) (plain MessagePlaintext, toSend []messageWithHeader, err error) {
